@@ -86,7 +86,8 @@ def plans(prop, rng, S, clean):
                 for q in (0, 1, 2)]
     if prop == "C09":
         q = rng.choice((0, 1))
-        return [{"filter": 7, "quit": q, "parsing": 1}] + [{"filter": 7, "quit": q, "parsing": 1, "cut": k} for k in range(n + 1)]
+        h = rng.choice((0, 1))  # ERR_LOG with and without an error handler
+        return [{"filter": 7, "quit": q, "parsing": 1, "handler": h}] + [{"filter": 7, "quit": q, "parsing": 1, "cut": k, "handler": h} for k in range(n + 1)]
     if prop == "C11":
         return [{"filter": 7, "quit": 1, "parsing": 1}] + [{"filter": f, "quit": 1, "parsing": p} for f in range(8) for p in (1, 0)]
     if prop == "C12":
@@ -118,12 +119,12 @@ def reader_check(ctx, prop):
 
     def cfgmix():
         return {"msgmode": rng.choice((0, 0, 0, 1, 2, 3)), "validate": rng.choice((1, 1, 1, 0)), "pbf": rng.choice((1, 0)), "labelmsm": rng.choice((1, 1, 2)),
-                "streamkind": rng.choice(("min", "bytesio"))}
+                "streamkind": rng.choice(("min", "bytesio", "pipe"))}
 
     def gen_small():
         for S in st.alphabet_streams(alpha_len):
             yield ("runs", {"prop": prop, "S": S.hex(), "recipe": [], "plan": plans(prop, rng, S, False), "conf": 1 if prop == "C07" else 0,
-                            "streamkind": "bytesio" if len(S) % 2 else "min"})
+                            "streamkind": ("min", "bytesio", "pipe")[(len(S) + (S[0] if S else 0)) % 3]})
 
     def gen_nested():
         """frames within frames, alone and between ordinary frames"""
@@ -138,7 +139,7 @@ def reader_check(ctx, prop):
                     rec.append({"a": pos, "b": pos + len(fr), "p": pp, "ok": -1, "dd": "", "fam": ""})
                     pos += len(fr)
                 S = b"".join(fr for fr, _ in parts)
-                for kind in ("min", "bytesio"):
+                for kind in ("min", "bytesio", "pipe"):
                     yield ("runs", {"prop": prop, "S": S.hex(), "recipe": rec, "plan": plans(prop, rng, S, True), "conf": 0, "streamkind": kind})
 
     def gen_big():
